@@ -18,9 +18,46 @@
 From Coq Require Import List ZArith Bool String Ascii.
 From PySMT.core Require Import Syntax Sem SmtStd.
 From PySMT.models Require Import TypeChecker Ctors SmtLex SmtParser SmtPrinter RoundTrip HrPrinter.
-From PySMT.proofs Require Import RoundTrip_proofs.
+From PySMT.proofs Require Import RoundTrip_proofs Reader_proofs Numeral_proofs RoundTrip_ind.
 Import ListNotations.
 Open Scope string_scope.
+
+(* ---- the round trip through the tree printer BY INDUCTION on the term (no bound on size or depth).
+   1. the reader's stack machine does what the recursive reading [elab] does, for every
+      s-expression built from atoms and applications, whatever the stack and the state;
+   2. [elab] of the print-out of t returns t when every node of t satisfies the local condition
+      [node_ok] (one node and its arguments: the parser's constructor for the printed head rebuilds
+      the node; a symbol is declared with its sort; an Int constant's token is not a declared name);
+   3. hence read_back print_tree t = Ok (ITerm t), when moreover no printed token needs quoting.
+   The local condition follows from typing for and, or, not, =>, <-> / = (Iff, Equals), ite, +, *, -,
+   <=, <, uninterpreted functions and the non-indexed bit-vector operators (proofs/RoundTrip_ind.v,
+   the node_ok lemmas); Int constants of any size are read back by Numeral_proofs.literal_numeral.
+   Not yet in the inductive fragment (still covered by the bounded families below and by the
+   correspondence): quantifiers, indexed operators, Real / BV / String constants, array values,
+   names that need quoting. *)
+Theorem C09_machine_simple : forall x, simpleb x = true ->
+  forall fuel' stk s i s' rest,
+    elab x s = ROk i s' -> toks s = (flatten x ++ rest)%list ->
+    get_expr (cost x + fuel') stk s = after fuel' stk i s' /\ toks s' = rest.
+Proof. exact machine_simple. Qed.
+Print Assumptions C09_machine_simple.
+
+Theorem C09_elab_print : forall D t, rt D t ->
+  forall s, inv D s -> exists s', elab (print_tree t) s = ROk (ITerm t) s' /\ inv D s'.
+Proof. exact elab_print. Qed.
+
+Theorem C09_roundtrip_tree_partial : forall t,
+  rt (D_of t) t -> all_plain (print_tree t) = true -> read_back print_tree t = Ok (ITerm t).
+Proof. exact roundtrip_tree_partial. Qed.
+Print Assumptions C09_roundtrip_tree_partial.
+
+Theorem C09_roundtrip_tree_partial_hypotheses_satisfiable :
+  rt (D_of ex_term) ex_term /\ all_plain (print_tree ex_term) = true.
+Proof. exact ex_term_rt. Qed.
+
+Theorem C09_literal_numeral : forall n s, (0 <= n)%Z -> logic_ia s = None ->
+  literal (dec_string n) s = ROk (TIntC n) s.
+Proof. exact literal_numeral. Qed.
 
 Theorem C09_roundtrip_tree_core_bounded : forall t, In t core_family -> roundtrip_ok print_tree t = true.
 Proof. exact roundtrip_tree_core_bounded. Qed.
